@@ -421,6 +421,10 @@ func (p *phaser) alignAgainstRefsNT(seq Sequence, orfs []Sequence) (ph PhasedSeq
 	}
 
 	phase = (3 - nbgapstart%3) % 3
+	// The codon window cannot start after the end of the trimmed sequence
+	if beststart+phase > bestend {
+		phase = bestend - beststart
+	}
 	ph = PhasedSequence{
 		Err:      nil,
 		Removed:  false,
